@@ -117,6 +117,63 @@ def jOptSV : Option SV → Json
   | none => .null
   | some v => jSV v
 
+/-! ### LLO structures
+* ChanDef: `{"format":n,"streams":[{"sid":n,"agg":n}],"opts":"hex"}`
+* maps are arrays of entries; outputs are sorted by key (canonical), inputs keep insertion order:
+  defs `[{"id":n,"def":ChanDef}]`, va `[{"id":n,"va":"nat"}]`, aggs `[{"sid":n,"agg":n,"v":SV}]`
+* Outcome: `{"stage":"…","ts":"nat","defs":[…],"va":[…],"aggs":[…]}`
+* Obs: `{"attested":"hex","retire":bool,"ts":"nat","removes":[n],"updates":[{"id","def"}],"values":[{"sid":n,"v":SV}]}`
+-/
+
+def asStream (j : Json) : P Stream := do pure ⟨← getNat j "sid", ← getNat j "agg"⟩
+def jStream (s : Stream) : Json := Json.mkObj [("sid", jNat s.sid), ("agg", jNat s.agg)]
+
+def asChanDef (j : Json) : P ChanDef := do
+  pure ⟨← getNat j "format", ← (← getArr j "streams").mapM asStream, ← getBytes j "opts"⟩
+def jChanDef (d : ChanDef) : Json :=
+  Json.mkObj [("format", jNat d.format), ("streams", .arr (d.streams.map jStream).toArray), ("opts", jBytes d.opts)]
+
+def asDefs (j : Json) : P (GoMap Nat ChanDef) := do
+  let es ← (← asArr j).mapM fun e => do pure ((← getNat e "id"), (← fld e "def" >>= asChanDef))
+  pure (GoMap.ofList es)
+def asVA (j : Json) : P (GoMap Nat Nat) := do
+  let es ← (← asArr j).mapM fun e => do pure ((← getNat e "id"), (← getNat e "va"))
+  pure (GoMap.ofList es)
+def asAggs (j : Json) : P (GoMap (Nat × Nat) SV) := do
+  let es ← (← asArr j).mapM fun e => do pure (((← getNat e "sid"), (← getNat e "agg")), (← fld e "v" >>= asSV))
+  pure (GoMap.ofList es)
+
+def sortByKey {ν} (m : GoMap Nat ν) : GoMap Nat ν := m.mergeSort (fun a b => decide (a.1 ≤ b.1))
+def sortByKey2 {ν} (m : GoMap (Nat × Nat) ν) : GoMap (Nat × Nat) ν :=
+  m.mergeSort (fun a b => decide (a.1.1 < b.1.1 ∨ (a.1.1 = b.1.1 ∧ a.1.2 ≤ b.1.2)))
+
+def jDefs (m : GoMap Nat ChanDef) : Json :=
+  .arr ((sortByKey m).map fun e => Json.mkObj [("id", jNat e.1), ("def", jChanDef e.2)]).toArray
+def jVA (m : GoMap Nat Nat) : Json :=
+  .arr ((sortByKey m).map fun e => Json.mkObj [("id", jNat e.1), ("va", jNat e.2)]).toArray
+def jAggs (m : GoMap (Nat × Nat) SV) : Json :=
+  .arr ((sortByKey2 m).map fun e => Json.mkObj [("sid", jNat e.1.1), ("agg", jNat e.1.2), ("v", jSV e.2)]).toArray
+
+def asOutcome (j : Json) : P Outcome := do
+  pure { stage := ← getStr j "stage", ts := ← getNat j "ts", defs := ← asDefs (fldD j "defs"),
+         va := ← asVA (fldD j "va"), aggs := ← asAggs (fldD j "aggs") }
+def jOutcome (o : Outcome) : Json :=
+  Json.mkObj [("stage", .str o.stage), ("ts", jNat o.ts), ("defs", jDefs o.defs), ("va", jVA o.va), ("aggs", jAggs o.aggs)]
+
+def asObs (j : Json) : P Obs := do
+  let vals ← (← asArr (fldD j "values")).mapM fun e => do pure ((← getNat e "sid"), (← fld e "v" >>= asSV))
+  pure { attested := ← asBytes (fldD j "attested" |> fun x => if x.isNull then Json.str "" else x),
+         shouldRetire := (fldD j "retire") == Json.bool true,
+         ts := ← getNat j "ts",
+         removes := ← (← asArr (fldD j "removes")).mapM asNat,
+         updates := ← asDefs (fldD j "updates"),
+         values := GoMap.ofList vals }
+def jObs (o : Obs) : Json :=
+  Json.mkObj [("attested", jBytes o.attested), ("retire", .bool o.shouldRetire), ("ts", jNat o.ts),
+    ("removes", .arr ((o.removes.mergeSort (fun a b => decide (a ≤ b))).map jNat).toArray),
+    ("updates", jDefs o.updates),
+    ("values", .arr ((sortByKey o.values).map fun e => Json.mkObj [("sid", jNat e.1), ("v", jSV e.2)]).toArray)]
+
 def jRes {α} (f : α → Json) : GoRes α → Json
   | .ok a => Json.mkObj [("ok", f a)]
   | .err c => Json.mkObj [("err", .str c)]
